@@ -41,7 +41,7 @@ func effFB(s *NodeSpec) bool {
 	switch s.Kind {
 	case KBaseFB, KPlainFB, KPlainRetryFB:
 		return true
-	case KFnOptRes, KFnOptAny, KFnBldRes, KFnBldAny, KFnMixed:
+	case KFnOptRes, KFnOptAny, KFnBldRes, KFnBldAny, KFnMixed, KEmbedBld:
 		return s.HasFB
 	}
 	return false
